@@ -23,7 +23,7 @@ theorem pollOneoff_quiet (fixed : Bool) (fds : Fds) (m : Mem) (inp out n res : N
     | exact ⟨rfl, rfl⟩
     | exact pollAfter_quiet _ _ _ _ _ _ _ _ _
 
-theorem fdReadCommon_quiet (rd : Reader) (m : Mem) (iovs cnt res : Nat) : Quiet (fdReadCommon rd m iovs cnt res) := by
+theorem fdReadCommon_quiet (fr : Bool) (rd : Reader) (m : Mem) (iovs cnt res : Nat) : Quiet (fdReadCommon fr rd m iovs cnt res) := by
   unfold fdReadCommon
   split_all
   all_goals exact ⟨rfl, rfl⟩
@@ -33,19 +33,19 @@ theorem fdWriteCommon_quiet (w : Writer) (m : Mem) (iovs cnt res : Nat) : Quiet 
   split_all
   all_goals exact ⟨rfl, rfl⟩
 
-theorem fdRead_quiet (h : Host) (fds : Fds) (m : Mem) (fd iovs cnt res : Nat) : Quiet (fdRead h fds m fd iovs cnt res) := by
+theorem fdRead_quiet (fr : Bool) (h : Host) (fds : Fds) (m : Mem) (fd iovs cnt res : Nat) : Quiet (fdRead fr h fds m fd iovs cnt res) := by
   unfold fdRead
   split_all
   all_goals first
     | exact ⟨rfl, rfl⟩
-    | exact fdReadCommon_quiet _ _ _ _ _
+    | exact fdReadCommon_quiet _ _ _ _ _ _
 
-theorem fdPread_quiet (fds : Fds) (m : Mem) (fd iovs cnt res : Nat) : Quiet (fdPread fds m fd iovs cnt res) := by
+theorem fdPread_quiet (fr : Bool) (fds : Fds) (m : Mem) (fd iovs cnt res : Nat) : Quiet (fdPread fr fds m fd iovs cnt res) := by
   unfold fdPread
   split_all
   all_goals first
     | exact ⟨rfl, rfl⟩
-    | exact fdReadCommon_quiet _ _ _ _ _
+    | exact fdReadCommon_quiet _ _ _ _ _ _
 
 theorem fdWrite_quiet (fds : Fds) (m : Mem) (fd iovs cnt res : Nat) : Quiet (fdWrite fds m fd iovs cnt res) := by
   unfold fdWrite
@@ -141,8 +141,8 @@ theorem fdClose_alloc (fds : Fds) (fd : Nat) : (fdClose fds fd).alloc = 0 := by
 
 /-- `readv`: on an iovec array whose byte length is a multiple of 8 the reads of the entries never fail their
 length checks, whatever the entries say -/
-theorem readvLoop_ne_panic (en : Bool) (iovs stop : Nat) (h8 : stop % 8 = 0) (hs : stop < 4294967296) :
-    ∀ (fuel pos : Nat) (s : RvSt), pos % 8 = 0 → (readvLoop en iovs stop fuel pos s).2 ≠ some Err.panic := by
+theorem readvLoop_ne_panic (en : Bool) (snap : Option Mem) (iovs stop : Nat) (h8 : stop % 8 = 0) (hs : stop < 4294967296) :
+    ∀ (fuel pos : Nat) (s : RvSt), pos % 8 = 0 → (readvLoop en snap iovs stop fuel pos s).2 ≠ some Err.panic := by
   intro fuel
   induction fuel with
   | zero => intro pos s _; simp [readvLoop]
@@ -194,16 +194,16 @@ theorem readTail_ne_panic (m : Mem) (res : Nat) (x : RvSt × Option Err) (hx : x
   | none => dsimp only; split <;> simp [efault]
   | some e => dsimp only; intro he; exact hx (by simp [he])
 
-theorem fdReadCommon_ne_panic (rd : Reader) (m : Mem) (iovs cnt res : Nat) :
-    (fdReadCommon rd m iovs cnt res).err ≠ Err.panic := by
-  have hl := fun en src => readvLoop_ne_panic en iovs (w32 (cnt * 8)) (stop8 cnt).1 (stop8 cnt).2
+theorem fdReadCommon_ne_panic (fr : Bool) (rd : Reader) (m : Mem) (iovs cnt res : Nat) :
+    (fdReadCommon fr rd m iovs cnt res).err ≠ Err.panic := by
+  have hl := fun en src => readvLoop_ne_panic en (if fr then some m else none) iovs (w32 (cnt * 8)) (stop8 cnt).1 (stop8 cnt).2
     (w32 (cnt * 8) / 8 + 1) 0 { m := m, ws := [], acc := [(iovs, w32 (cnt * 8))], src := src, nread := 0 } rfl
   unfold fdReadCommon
   dsimp only
   split
   · simp [efault]
   · cases rd with
-    | unknown => simp
+    | unknown => dsimp only; split <;> simp
     | stream src => exact readTail_ne_panic m res _ (hl false src)
     | enosys => exact readTail_ne_panic m res _ (hl true [])
 
@@ -269,20 +269,20 @@ theorem writeOffsetsAndValues_ne_panic (m : Mem) (vs : List (List Nat)) (o b : N
         rw [heq] at hl
         cases hl
 
-theorem fdRead_ne_panic (h : Host) (fds : Fds) (m : Mem) (fd iovs cnt res : Nat) :
-    (fdRead h fds m fd iovs cnt res).err ≠ Err.panic := by
+theorem fdRead_ne_panic (fr : Bool) (h : Host) (fds : Fds) (m : Mem) (fd iovs cnt res : Nat) :
+    (fdRead fr h fds m fd iovs cnt res).err ≠ Err.panic := by
   unfold fdRead
   split_all
   all_goals first
-    | exact fdReadCommon_ne_panic _ _ _ _ _
+    | exact fdReadCommon_ne_panic _ _ _ _ _ _
     | simp [ebadf]
 
-theorem fdPread_ne_panic (fds : Fds) (m : Mem) (fd iovs cnt res : Nat) :
-    (fdPread fds m fd iovs cnt res).err ≠ Err.panic := by
+theorem fdPread_ne_panic (fr : Bool) (fds : Fds) (m : Mem) (fd iovs cnt res : Nat) :
+    (fdPread fr fds m fd iovs cnt res).err ≠ Err.panic := by
   unfold fdPread
   split_all
   all_goals first
-    | exact fdReadCommon_ne_panic _ _ _ _ _
+    | exact fdReadCommon_ne_panic _ _ _ _ _ _
     | simp [ebadf]
 
 theorem fdWrite_ne_panic (fds : Fds) (m : Mem) (fd iovs cnt res : Nat) :
@@ -378,12 +378,12 @@ macro "fs1_case" hc:ident t:term : tactic =>
 theorem quiet_table {r : Res} (h : Quiet r) : r.err ≠ Err.errno 0 → r.fds = none := fun _ => h.1
 
 /-- first batch: a call that does not answer errno 0 leaves the descriptor table as it was -/
-theorem call1e_table (fixed : Bool) (h : Host) (fds : Fds) (m : Mem) (f : Fn1) (a : List Nat) (r : Res)
-    (hc : call1e fixed h fds m f a = some r) : r.err ≠ Err.errno 0 → r.fds = none := by
+theorem call1e_table (fixed fixedRead : Bool) (h : Host) (fds : Fds) (m : Mem) (f : Fn1) (a : List Nat) (r : Res)
+    (hc : call1e fixed fixedRead h fds m f a = some r) : r.err ≠ Err.errno 0 → r.fds = none := by
   cases f
   case poll_oneoff => fs1_case hc (quiet_table (pollOneoff_quiet _ _ _ _ _ _ _))
-  case fd_read => fs1_case hc (quiet_table (fdRead_quiet _ _ _ _ _ _ _))
-  case fd_pread => fs1_case hc (quiet_table (fdPread_quiet _ _ _ _ _ _))
+  case fd_read => fs1_case hc (quiet_table (fdRead_quiet _ _ _ _ _ _ _ _))
+  case fd_pread => fs1_case hc (quiet_table (fdPread_quiet _ _ _ _ _ _ _))
   case fd_write => fs1_case hc (quiet_table (fdWrite_quiet _ _ _ _ _ _))
   case fd_pwrite => fs1_case hc (quiet_table (fdPwrite_quiet _ _ _ _ _ _))
   case args_get => fs1_case hc (quiet_table (writeOffsetsAndValues_quiet _ _ _ _ _))
@@ -405,12 +405,12 @@ theorem call1e_table (fixed : Bool) (h : Host) (fds : Fds) (m : Mem) (f : Fn1) (
   case sched_yield => fs1_case hc (fun _ => rfl)
 
 /-- first batch: nothing is allocated by guest numbers, except by fd_renumber (F16) -/
-theorem call1e_alloc (fixed : Bool) (h : Host) (fds : Fds) (m : Mem) (f : Fn1) (hf : f ≠ Fn1.fd_renumber)
-    (a : List Nat) (r : Res) (hc : call1e fixed h fds m f a = some r) : r.alloc = 0 := by
+theorem call1e_alloc (fixed fixedRead : Bool) (h : Host) (fds : Fds) (m : Mem) (f : Fn1) (hf : f ≠ Fn1.fd_renumber)
+    (a : List Nat) (r : Res) (hc : call1e fixed fixedRead h fds m f a = some r) : r.alloc = 0 := by
   cases f
   case poll_oneoff => fs1_case hc (pollOneoff_quiet _ _ _ _ _ _ _).2
-  case fd_read => fs1_case hc (fdRead_quiet _ _ _ _ _ _ _).2
-  case fd_pread => fs1_case hc (fdPread_quiet _ _ _ _ _ _).2
+  case fd_read => fs1_case hc (fdRead_quiet _ _ _ _ _ _ _ _).2
+  case fd_pread => fs1_case hc (fdPread_quiet _ _ _ _ _ _ _).2
   case fd_write => fs1_case hc (fdWrite_quiet _ _ _ _ _ _).2
   case fd_pwrite => fs1_case hc (fdPwrite_quiet _ _ _ _ _ _).2
   case args_get => fs1_case hc (writeOffsetsAndValues_quiet _ _ _ _ _).2
